@@ -14,7 +14,14 @@ ABLAB_ISOQUANT_VERIF=1) so that each access to a config file waits for a step to
     lookup   gtf2db.find_converted_db        (for the find_stored_* functions of read_mapper the lookup is inline:
                                               a pseudo event is logged right after the load)
     produce  the conversion / indexing / alignment itself, replaced by a fake that writes the target file, gives it the
-             next clock value as mtime and logs what was converted from what
+             next clock value as mtime and logs what was converted from what.  `index_reference` is NOT replaced (audit2
+             C20-G3): the real function runs and finds a stand-in `minimap2` executable on PATH (a shell script that writes
+             what it was asked to index into the index file); whether it called the indexer or returned a file it found
+             under the index's NAME is what the harness observes.
+    start    pseudo step before the first statement of a run (not part of the model trace).  Normally every worker has
+             passed it before the schedule begins; the runs listed in `late` pass it when the schedule first names them,
+             i.e. they START - set_configs_directory from its first line - while others are in the middle of a cycle
+             (seed C20_b2: start-up code outside the modelled steps that touches another run's in-flight temp file)
 
 The controller grants the token along a schedule (list of pids); the recorded trace (pid, label, file) is the
 interleaving that actually took place and is what the Lean model is run on.
@@ -44,6 +51,9 @@ class Token:
         self.stores = []           # (pid, file, text) complete buffers handed to a store
         self.taken = []            # (pid, kind, path, mtime, hit): the artefact version (path @ mtime) a run goes on to use,
                                    # recorded at the moment it takes it (cache hit / own production); one per result, in order
+        self.reused_by_name = []   # (pid, path): index_reference returned a file it found under the index's name
+        self.events = []           # artefact-level events of the database files (Model/Artefact.lean), in order:
+                                   # (pid, "build"|"publish"|"use", public path, path built at | what was seen)
         self.errors = {}
 
     # ---- worker side
@@ -117,9 +127,10 @@ class _WriteProxy:
 class Instrument:
     """context manager: patches the repo modules for one scenario"""
 
-    def __init__(self, home, tok):
+    def __init__(self, home, tok, hold_build=False):
         self.home = home
         self.tok = tok
+        self.hold_build = hold_build
         self.cfg_dir = os.path.join(home, ".config", "IsoQuant")
         self.cfg_paths = {os.path.join(self.cfg_dir, n): i for i, n in enumerate(CONFIG_NAMES)}
         self.saved = []
@@ -234,16 +245,87 @@ class Instrument:
                               "target": os.path.abspath(target), "tgt_mtime": float(c), "tag": tag})
             took(kind, target, False)
 
-        def fake_gtf2db(gtf, db, complete_db=False, check_gtf=True):
-            produce("db", os.path.abspath(gtf), gtf, db, bool(complete_db))
-        self._set(G, "gtf2db", fake_gtf2db)
+        # The REAL gtf2db runs (audit2 C20-G2): only gffutils.create_db is a stand-in, so WHERE the database is built - at
+        # the path other runs may hold from the cache, or under a private name that is moved into place - is the code's
+        # decision.  With `hold_build` the stand-in has the two phases of the real conversion: "build" (the old file is
+        # removed, a new, still incomplete one exists) and "produce" (the file is complete).
+        import gffutils as real_gffutils
+        orig_gtf2db = G.gtf2db
 
-        def fake_index_reference(aligner, args):
-            ref_name = os.path.splitext(os.path.basename(args.reference))[0]
-            idx = os.path.join(os.path.abspath(args.output), "%s_k%s_idx" % (ref_name, RM.KMER_SIZE[args.data_type]))
-            produce("index", os.path.abspath(args.reference), args.reference, idx, RM.KMER_SIZE[args.data_type])
+        def fake_create_db(data, dbfn, force=False, **kw):
+            cur = _tls.cur
+            cur["built_at"] = os.path.abspath(dbfn)
+            if inst.hold_build:
+                tok.barrier("build", KIND["db"])
+                if force and os.path.exists(dbfn):
+                    os.unlink(dbfn)
+                with _real_open(dbfn, "w") as fh:
+                    fh.write('{"converted_from": ')          # an incomplete database
+                tok.events.append((_tls.pid, "build", cur["built_at"], None))
+            tok.barrier("produce", KIND["db"])
+            cur["m0"] = os.path.getmtime(data)
+            if force and os.path.exists(dbfn):
+                os.unlink(dbfn)
+            with _real_open(dbfn, "w") as fh:
+                json.dump({"converted_from": data, "src_mtime": cur["m0"], "tag": cur["complete"], "kind": "db"}, fh)
+            c = tok.clock
+            tok.clock += 1
+            os.utime(dbfn, (c, c))
+            cur["clock"] = c
+
+        class GffProxy:
+            def __getattr__(self, name):
+                return getattr(real_gffutils, name)
+
+            create_db = staticmethod(fake_create_db)
+        self._set(G, "gffutils", GffProxy())
+
+        def gtf2db(gtf, db, complete_db=False, check_gtf=True):
+            _tls.cur = cur = {"complete": bool(complete_db)}
+            orig_gtf2db(gtf, db, complete_db, check_gtf)
+            final = os.path.abspath(db)
+            tok.convs.append({"pid": _tls.pid, "kind": "db", "key": os.path.abspath(gtf), "src": gtf, "src_mtime0": cur.get("m0"),
+                              "target": final, "tgt_mtime": os.path.getmtime(db), "tag": bool(complete_db),
+                              "built_at": cur.get("built_at")})
+            tok.events.append((_tls.pid, "publish", final, cur.get("built_at")))
+            took("db", db, False)
+        self._set(G, "gtf2db", gtf2db)
+
+        # the REAL index_reference with a stand-in minimap2 on PATH
+        self.bindir = os.path.join(self.home, "_stubbin")
+        os.makedirs(self.bindir, exist_ok=True)
+        stub = os.path.join(self.bindir, "minimap2")
+        with _real_open(stub, "w") as fh:
+            fh.write(STUB_MINIMAP2)
+        os.chmod(stub, 0o755)
+        self.env_path = os.environ.get("PATH")
+        os.environ["PATH"] = self.bindir + os.pathsep + (self.env_path or "")
+        orig_index_reference = RM.index_reference
+
+        def index_reference(aligner, args):
+            tok.barrier("produce", KIND["index"])
+            m0 = os.path.getmtime(args.reference)
+            idx = orig_index_reference(aligner, args)
+            try:
+                with _real_open(idx) as fh:
+                    built = fh.read()
+            except OSError:
+                built = ""
+            if built.startswith("STUBINDEX\t"):
+                # the indexer ran: canonical content (what was indexed, its mtime, k), next clock value as mtime
+                _, ref, k = built.rstrip("\n").split("\t")
+                with _real_open(idx, "w") as fh:
+                    json.dump({"converted_from": ref, "src_mtime": m0, "tag": k, "kind": "index"}, fh)
+                c = tok.clock
+                tok.clock += 1
+                os.utime(idx, (c, c))
+                tok.convs.append({"pid": _tls.pid, "kind": "index", "key": os.path.abspath(ref), "src": ref, "src_mtime0": m0,
+                                  "target": os.path.abspath(idx), "tgt_mtime": float(c), "tag": k})
+            else:
+                tok.reused_by_name.append((_tls.pid, os.path.abspath(idx)))
+            took("index", idx, False)
             return idx
-        self._set(RM, "index_reference", fake_index_reference)
+        self._set(RM, "index_reference", index_reference)
 
         def fake_db2bed(db, bed, _=None):
             produce("bed", os.path.abspath(db), db, bed, None)
@@ -275,10 +357,30 @@ class Instrument:
             os.environ.pop("HOME", None)
         else:
             os.environ["HOME"] = self.env_home
+        if self.env_path is None:
+            os.environ.pop("PATH", None)
+        else:
+            os.environ["PATH"] = self.env_path
         return False
 
 
 _MISSING = object()
+
+# stand-in for the minimap2 binary (none is installed): `-t N -k K -w 5 -d <index> <reference>` writes a marker naming
+# what it was asked to index
+STUB_MINIMAP2 = """#!/bin/sh
+idx=""; k=""; ref=""
+while [ $# -gt 0 ]; do
+  case "$1" in
+    -d) idx="$2"; shift 2;;
+    -k) k="$2"; shift 2;;
+    -t|-w) shift 2;;
+    *) ref="$1"; shift;;
+  esac
+done
+[ -n "$idx" ] || exit 1
+printf 'STUBINDEX\\t%s\\t%s\\n' "$ref" "$k" > "$idx"
+"""
 
 
 def worker_program(mods, cfg):
@@ -318,19 +420,44 @@ def worker_program(mods, cfg):
     return results
 
 
-def run_scenario(home, cfgs, schedule, clock0, grant_timeout=60):
+def use_steps(tok, results):
+    """the run goes on to USE what it took: it opens the database path again (every worker of a real run does, for every
+    chromosome) - one step per database result; what it finds is recorded"""
+    for kind, path in results:
+        if kind != "db":
+            continue
+        tok.barrier("use", KIND["db"])
+        try:
+            with _real_open(path) as fh:
+                text = fh.read()
+        except OSError:
+            text = None
+        try:
+            seen = json.loads(text) if text is not None else None
+            seen = "complete:%s@%s" % (seen["converted_from"], os.path.getmtime(path)) if isinstance(seen, dict) else "partial"
+        except (ValueError, KeyError):
+            seen = "partial"
+        tok.events.append((_tls.pid, "use", os.path.abspath(path), "absent" if text is None else seen))
+
+
+def run_scenario(home, cfgs, schedule, clock0, grant_timeout=60, late=(), hold_build=False):
     """Runs len(cfgs) 'processes' on the real code along `schedule` (pids; finished ones are skipped), then lets the
-    remaining ones finish in pid order.  Returns a dict with the realised trace, outcomes, final file contents, logs."""
+    remaining ones finish in pid order.  The pids in `late` START only when the schedule first names them (or at the end).
+    Returns a dict with the realised trace, outcomes, final file contents, logs."""
     n = len(cfgs)
+    late = set(late)
     tok = Token(n, clock0)
     outcomes = [None] * n
 
-    with Instrument(home, tok) as inst:
+    with Instrument(home, tok, hold_build) as inst:
         def body(pid):
             _tls.pid = pid
             try:
                 tok.barrier("start", -1)
-                outcomes[pid] = {"ok": True, "results": worker_program(inst.mods, cfgs[pid])}
+                res = worker_program(inst.mods, cfgs[pid])
+                if hold_build:
+                    use_steps(tok, res)
+                outcomes[pid] = {"ok": True, "results": res}
             except BaseException as ex:   # noqa: the crash of a run is an outcome
                 outcomes[pid] = {"ok": False, "exc": type(ex).__name__, "msg": str(ex)[:200]}
             finally:
@@ -341,9 +468,12 @@ def run_scenario(home, cfgs, schedule, clock0, grant_timeout=60):
         for t in threads:
             t.start()
         for pid in range(n):          # consume the 'start' barrier: every worker now waits at its first real step
-            tok.grant(pid, grant_timeout)
+            if pid not in late:
+                tok.grant(pid, grant_timeout)
         for pid in schedule:
             if 0 <= pid < n:
+                if pid in late:       # the run starts now (its first slot is spent on everything before its first cache step)
+                    late.discard(pid)
                 tok.grant(pid, grant_timeout)
         for pid in range(n):
             while tok.grant(pid, grant_timeout):
@@ -357,6 +487,8 @@ def run_scenario(home, cfgs, schedule, clock0, grant_timeout=60):
                     files[f] = fh.read().decode("utf-8", "replace")
             except OSError:
                 files[f] = None
-    trace = [(p, l, f) for (p, l, f) in tok.trace if l != "start"]
-    return {"trace": trace, "outcomes": outcomes, "files": files, "convs": tok.convs, "loads": tok.loads,
-            "stores": tok.stores, "clock": tok.clock, "taken": tok.taken}
+    # the steps of the cache-protocol model; "build" / "use" belong to the artefact model (they touch no config file and, in
+    # the repaired code, no path another run can see)
+    trace = [(p, l, f) for (p, l, f) in tok.trace if l not in ("start", "build", "use")]
+    return {"trace": trace, "trace_full": [(p, l, f) for (p, l, f) in tok.trace if l != "start"], "events": tok.events, "outcomes": outcomes, "files": files, "convs": tok.convs, "loads": tok.loads,
+            "stores": tok.stores, "clock": tok.clock, "taken": tok.taken, "reused_by_name": tok.reused_by_name}
